@@ -704,6 +704,56 @@ namespace
         }
     };
 
+    // container members of one live joint object assigned from those of another (copy / move assignment;
+    // joint_allocator does not propagate, so the target keeps using its own object's memory)
+    template <class J>
+    bool joint_assign(J&, J&, unsigned)
+    {
+        return false;
+    }
+    template <class E>
+    bool joint_assign(JV<E>& to, JV<E>& from, unsigned how)
+    {
+        try
+        {
+            if (how % 2)
+                to.vec = std::move(from.vec);
+            else
+                to.vec = from.vec;
+        }
+        catch (fm::out_of_fixed_memory&)
+        {
+        }
+        catch (std::length_error&)
+        {
+        }
+        return true;
+    }
+    inline bool joint_assign(JM& to, JM& from, unsigned how)
+    {
+        try
+        {
+            if (how % 2)
+            {
+                if ((how / 2) % 2)
+                    to.vec = std::move(from.vec);
+                else
+                    to.str = std::move(from.str);
+            }
+            else if ((how / 2) % 2)
+                to.vec = from.vec;
+            else
+                to.str = from.str;
+        }
+        catch (fm::out_of_fixed_memory&)
+        {
+        }
+        catch (std::length_error&)
+        {
+        }
+        return true;
+    }
+
     struct Fail
     {
         bool        failed = false;
@@ -737,7 +787,7 @@ namespace
         };
         std::vector<std::vector<Piece>> dyn;
         unsigned n_created = 0, n_exact = 0, n_overflow = 0, n_clone_mut = 0, n_multi = 0;
-        unsigned n_dyn = 0, n_dyn_refused = 0, n_dyn_nonlast = 0, n_mutate_live = 0, n_moved_objects = 0, n_assign_nonempty = 0;
+        unsigned n_dyn = 0, n_dyn_refused = 0, n_dyn_nonlast = 0, n_mutate_live = 0, n_moved_objects = 0, n_assign_nonempty = 0, n_cross_assign = 0;
         int      dtors = 0;
         bool     allow_known = false;
 
@@ -1175,6 +1225,47 @@ namespace
                 ++n_moved_objects;
                 break;
             }
+            case 9: // container members assigned across two live joint objects
+            {
+                size_t from = (slot + 1 + o.b % 2) % 3;
+                auto&  fp   = *slots[from];
+                if (!sp || !fp)
+                {
+                    ++ci.noops;
+                    break;
+                }
+                if (!check_pattern(slot) || !check_pattern(from))
+                    break;
+                if (!joint_assign(*sp, *fp, o.a))
+                {
+                    ++ci.noops;
+                    break;
+                }
+                for (size_t s2 : {slot, from})
+                {
+                    auto blk = Slab::get().find_block(slots[s2]->get());
+                    if (blk)
+                        check_object(*slots[s2], blk->size - sizeof(J)); // each object's pieces in its own block
+                }
+                if (fail.failed)
+                    break;
+                check_pattern(slot);
+                check_pattern(from);
+                sp->fill(seeds[slot]);
+                fp->fill(seeds[from]);
+                if (o.b % 3 == 0)
+                {
+                    // the target must not depend on the source object's block
+                    auto saved = snapshot(slot);
+                    reset(from);
+                    if (!fail.failed)
+                        compare(slot, saved, "destroying the object whose member was assigned from");
+                    if (!fail.failed)
+                        sp->fill(seeds[slot]);
+                }
+                ++n_cross_assign;
+                break;
+            }
             default:
                 ++ci.noops;
             }
@@ -1225,7 +1316,7 @@ namespace
             if (!fail.failed && (out_of(21) || out_of(22)))
                 fail("leak", "joint blocks left outstanding");
             ci.nontrivial = n_multi > 0 || n_exact > 0 || n_overflow > 0 || n_clone_mut > 0 || n_dyn_nonlast > 0
-                            || n_mutate_live > 0 || n_moved_objects > 0;
+                            || n_mutate_live > 0 || n_moved_objects > 0 || n_cross_assign > 0;
             if (n_dyn)
                 ci.classes.insert("post-construction-allocation");
             if (n_dyn_refused)
@@ -1238,6 +1329,8 @@ namespace
                 ci.classes.insert("object-moved-with-allocator");
             if (n_assign_nonempty)
                 ci.classes.insert("move-assign-onto-non-empty");
+            if (n_cross_assign)
+                ci.classes.insert("member-assigned-across-objects");
             if (n_exact)
                 ci.classes.insert("exact-fit");
             if (n_overflow)
@@ -1654,11 +1747,13 @@ namespace
             {
                 out.max_ops = 30;
                 out.kinds   = {{"create_measure", 6}, {"create_small", 2}, {"clone", 4}, {"move", 3}, {"reset", 2},
-                               {"dyn_alloc", 7}, {"dyn_release", 4}, {"container_op", 4}, {"move_object", 4}};
+                               {"dyn_alloc", 7}, {"dyn_release", 4}, {"container_op", 4}, {"move_object", 4},
+                               {"cross_assign", 3}};
                 out.rule    = "additional size > 0 with >= 2 members, or an exact-fit / one-byte-short creation, or a "
                               "clone followed by mutation, or the release of a piece that is not the last allocation "
                               "while others are live, or a container operation while later pieces are live, or a joint object "
-                              "move-constructed from another (members moved with the new allocator)";
+                              "move-constructed from another (members moved with the new allocator), or a container member "
+                              "copy/move-assigned from the member of another live joint object";
                 return true;
             }
             return false;
